@@ -21,3 +21,21 @@ func NewTCPTransportFromConn(conn net.Conn, server bool, config *TCPConfig) Tran
 // VerifEnvelope names the (unexported) envelope interface, so that code outside the package can
 // implement Transport by wrapping a real transport. It exists only under the "verif" build tag.
 type VerifEnvelope = envelope
+
+// VerifGate, when set, is called at the scheduling points of the pending-command table
+// ("pc.registered", "pc.cleanup" with the *RequestCommand; "rcv.lookedUp", "rcv.deleted" with the
+// *ResponseCommand), so that a harness can hold a goroutine there and force an interleaving.
+var VerifGate func(point string, key interface{})
+
+func verifGate(_ *channel, point string, key interface{}) {
+	if f := VerifGate; f != nil {
+		f(point, key)
+	}
+}
+
+// VerifPendingCount is the number of registrations in the pending-command table.
+func (c *channel) VerifPendingCount() int {
+	c.processingCmdsMu.RLock()
+	defer c.processingCmdsMu.RUnlock()
+	return len(c.processingCmds)
+}
